@@ -39,4 +39,11 @@ theorem gen_host_utils :
     ipv6MinLen = 2 ∧ ipv6MaxLen = 39 ∧ ipv6DigitMax = 4 ∧ ipv6GroupMax = 8 ∧
     ipv6Indices = ["0", "1", "i", "i-1", "substr.len-1", "substr.len-2"] := by decide
 
+/-- source/date_time.c, RFC 822 reader: the indices written into `dt->tz` (a C string later handed to `strlen`) stay below
+its last byte, so the terminating NUL survives; `get_month_number_from_str` reads its three-character triplet only when at
+least that many characters lie between `start_index` and `stop_index` (all of them inside the text, because the caller
+passes `stop_index = index + 1` with `index < len`) -/
+theorem gen_date :
+    dateTzIndexEnd < dateTzSize ∧ dateTripletReads ≤ dateMonthMinLen ∧ dateTzSize = 6 ∧ dateStrMaxLen = 100 := by decide
+
 end AwsVerif.Proofs.C04.Bridge
